@@ -88,7 +88,7 @@ def run(ctx):
     else:
         recs = subset_records(ctx, rng, nid)
     res = common.pipeline(
-        ctx, [('SchemeMC', 'SchemeMC_C04_%s.cfg' % ctx.tier)], 'Trace_Relations', recs, mutator=mutate,
+        ctx, [('SchemeMC', 'SchemeMC_C04_%s.cfg' % ctx.tier), ('IntegratorMC', 'IntegratorMC.cfg')], 'Trace_Relations', recs, mutator=mutate,
         nontrivial_of=lambda r: (r['site'], tuple(r['in']['keep']), r['in']['mode'], r['in']['steps'] > 1),
         rule='subset records: 2-5 populations, no migration/selection, random sizes (constant or time functions), every kind of subset S; the run of S '
              'alone is driven with the logged time steps; driver traces: every frozen/nomut pattern drawn at random in 2-5 populations, constant and '
